@@ -96,21 +96,93 @@ func c07Bystanders() []eng.Res {
 	}
 }
 
-// c07Build assembles the history of a scenario for the given new resources and placements.
+// what the chart ITSELF renders for the three ownership keys of a resource (setMetadataVisitor must
+// force its own values over them), plus a label and an annotation that must survive stamping
+var c07Metas = []string{"none", "right", "wrong-label", "stale", "empty", "label-only", "name-only", "ns-only", "wrong-all", "case"}
+
+func c07OwnMeta(f map[string]string, meta string) {
+	switch meta {
+	case "", "none":
+		return
+	case "right": // what Helm would write anyway
+		f[c07L], f[c07AN], f[c07AS] = "Helm", eng.RelName, eng.RelNS
+	case "wrong-label": // a chart migrated from another tool
+		f[c07L] = "kustomize"
+	case "stale": // copied from a live object of ANOTHER release
+		f[c07L], f[c07AN], f[c07AS] = "Helm", "other", "elsewhere"
+	case "empty":
+		f[c07L], f[c07AN], f[c07AS] = "", "", ""
+	case "label-only":
+		f[c07L] = "Tiller"
+	case "name-only":
+		f[c07AN] = "old-name"
+	case "ns-only":
+		f[c07AS] = "old-ns"
+	case "wrong-all":
+		f[c07L], f[c07AN], f[c07AS] = "kustomize", "old-name", "old-ns"
+	case "case": // right values, wrong case of the label value
+		f[c07L], f[c07AN], f[c07AS] = "helm", eng.RelName, eng.RelNS
+	}
+	f["l:app.kubernetes.io/name"] = "keep"
+	f["a:example.com/note"] = "keep me"
+}
+
+// c07Spec describes one case: the new resources (indices into c07Pool), for each the placement of a
+// pre-existing object, the ownership metadata its template renders (Metas), its namespace (NS, ""
+// = the release namespace), and the scenario around them.
+type c07Spec struct {
+	Backend, Scenario string
+	Idx               []int
+	Place             []string
+	Metas             []string // per new resource; nil = none
+	BaseMeta          string   // rendered by the second version of the always-present resource "base"
+	NS                []string // per new resource; nil = release namespace
+	Twins             bool     // a same-named object of ANOTHER release in namespace "third" for every new resource
+	Variant           int
+	Take              bool
+	Fl                eng.Flags
+	Hooks             []eng.Hook
+}
+
 func c07Build(backend, scenario string, idx []int, place []string, variant int, take bool, fl eng.Flags, hooks []eng.Hook) c07Case {
-	c := c07Case{Scenario: scenario, Place: place}
+	return c07BuildSpec(c07Spec{Backend: backend, Scenario: scenario, Idx: idx, Place: place, Variant: variant, Take: take, Fl: fl, Hooks: hooks})
+}
+
+// c07BuildSpec assembles the history of a scenario for the given new resources and placements.
+func c07BuildSpec(sp c07Spec) c07Case {
+	backend, scenario, idx, place, variant, take, fl, hooks := sp.Backend, sp.Scenario, sp.Idx, sp.Place, sp.Variant, sp.Take, sp.Fl, sp.Hooks
+	c := c07Case{Scenario: scenario, Place: place, Metas: sp.Metas, NS: sp.NS}
+	if sp.BaseMeta != "" && sp.BaseMeta != "none" {
+		c.Metas = append(append([]string{}, sp.Metas...), "base:"+sp.BaseMeta)
+	}
 	h := eng.History{Backend: backend, Init: c07Bystanders()}
 	var newRes []eng.Res
 	var placed []eng.Res
 	for i, ix := range idx {
 		p := c07Pool[ix%len(c07Pool)]
-		newRes = append(newRes, c07ChartRes(p.Kind, p.Name, variant+i))
+		r := c07ChartRes(p.Kind, p.Name, variant+i)
+		if i < len(sp.Metas) {
+			c07OwnMeta(r.Fields, sp.Metas[i])
+		}
+		ns := ""
+		if i < len(sp.NS) {
+			ns = sp.NS[i]
+		}
+		r.Namespace = ns
+		newRes = append(newRes, r)
 		if o := c07Place(p.Kind, p.Name, place[i], variant+i); o != nil {
+			o.Namespace = ns
 			placed = append(placed, *o)
+		}
+		if sp.Twins {
+			// same kind and name, another namespace, owned by another release: neither a conflict nor Helm's to touch
+			h.Init = append(h.Init, eng.Res{Kind: p.Kind, Name: p.Name, Namespace: "third",
+				Fields: map[string]string{"d:k": "twin", c07L: "Helm", c07AN: "other", c07AS: "third"}})
 		}
 	}
 	base := eng.Res{Kind: "ConfigMap", Name: "base", Fields: map[string]string{"d:k": "b1"}}
 	base2 := eng.Res{Kind: "ConfigMap", Name: "base", Fields: map[string]string{"d:k": "b2"}}
+	c07OwnMeta(base2.Fields, sp.BaseMeta)
 	fl.TakeOwnership = take
 	edits := func() {
 		for i := range placed {
@@ -179,7 +251,13 @@ func c07Build(backend, scenario string, idx []int, place []string, variant int, 
 func c07GetFault(c c07Case, idx []int, i int) c07Case {
 	p := c07Pool[idx[i%len(idx)]%len(c07Pool)]
 	op := c.H.Steps[c.Test].Op
-	op.KFault = &eng.KFault{Verb: "get", Key: p.Kind + "/" + p.Name}
+	key := p.Kind + "/" + p.Name
+	for _, m := range op.Manifest {
+		if m.Kind == p.Kind && m.Name == p.Name {
+			key = m.Key() // <namespace>/Kind/name outside the release namespace
+		}
+	}
+	op.KFault = &eng.KFault{Verb: "get", Key: key}
 	c.Scenario += "+getfault"
 	return c
 }
@@ -212,7 +290,30 @@ func c07Gen(r *rand.Rand) c07Case {
 	if sc == "upgrade-add" && r.Intn(3) == 0 {
 		fl.MaxHistory = 1 + r.Intn(2)
 	}
-	c := c07Build([]string{"secret", "memory", "configmap"}[r.Intn(3)], sc, idx, place, 1+r.Intn(6), r.Intn(2) == 0, fl, eng.GenHooks(r, 2))
+	sp := c07Spec{Backend: []string{"secret", "memory", "configmap"}[r.Intn(3)], Scenario: sc, Idx: idx, Place: place,
+		Variant: 1 + r.Intn(6), Take: r.Intn(2) == 0, Fl: fl, Hooks: eng.GenHooks(r, 2)}
+	// 45%: templates that render their own (right, wrong, stale, empty, partial) ownership metadata
+	if r.Intn(100) < 45 {
+		sp.Metas = make([]string, n)
+		for i := range sp.Metas {
+			sp.Metas[i] = c07Metas[r.Intn(len(c07Metas))]
+		}
+		if r.Intn(3) == 0 {
+			sp.BaseMeta = c07Metas[1+r.Intn(len(c07Metas)-1)]
+		}
+	}
+	// 20%: some of the new resources live in a second namespace; same-named objects of another
+	// release in a third namespace
+	if r.Intn(100) < 20 {
+		sp.NS = make([]string, n)
+		for i := range sp.NS {
+			if r.Intn(2) == 0 {
+				sp.NS[i] = "other"
+			}
+		}
+		sp.Twins = r.Intn(4) != 0
+	}
+	c := c07BuildSpec(sp)
 	if sc != "rollback-recreate" && r.Intn(100) < 15 {
 		c = c07GetFault(c, idx, r.Intn(n))
 	}
@@ -245,6 +346,34 @@ func (*c07) Corpus() []any {
 			out = append(out, c07GetFault(c07Build("secret", "upgrade-add", idx, pl, 1+i, take, eng.Flags{Atomic: true, Cleanup: true}, nil), idx, 0))
 			out = append(out, c07GetFault(c07Build("secret", "upgrade-add-twin", idx, pl, 1+i, take, eng.Flags{}, nil), idx, 0))
 		}
+	}
+	// templates that render their own ownership metadata (seeded defect C07-8: mergeLabels with its
+	// arguments swapped lets the rendered label win): every variant x {created by install, created by an
+	// upgrade, created by install --replace, re-created by a rollback, adopted over a foreign / an owned
+	// object, rendered by the UPDATED resource of an upgrade}
+	for i, m := range c07Metas[1:] {
+		metas := []string{m, "none"}
+		for _, sc := range []string{"install", "upgrade-add", "replace", "rollback-recreate"} {
+			out = append(out, c07BuildSpec(c07Spec{Backend: "secret", Scenario: sc, Idx: []int{0, 2}, Place: []string{"absent", "absent"}, Metas: metas, Variant: 1 + i}))
+		}
+		out = append(out, c07BuildSpec(c07Spec{Backend: "memory", Scenario: "install", Idx: []int{1, 3}, Place: []string{"foreign", "owned"}, Metas: []string{m, m}, Variant: 2 + i, Take: true}))
+		out = append(out, c07BuildSpec(c07Spec{Backend: "memory", Scenario: "upgrade-add", Idx: []int{1}, Place: []string{"owned"}, Metas: []string{m}, BaseMeta: m, Variant: 2 + i}))
+		out = append(out, c07BuildSpec(c07Spec{Backend: "configmap", Scenario: "upgrade-retry", Idx: []int{4}, Place: []string{"absent"}, Metas: []string{"none"}, BaseMeta: m, Variant: 1 + i}))
+	}
+	// two namespaces: the manifest has resources in the release namespace and in "other"; the
+	// pre-existing object sits in "other"; a same-named object of another release in "third" is
+	// neither a conflict nor touched
+	for i, p := range c07Placements {
+		for _, sc := range []string{"install", "upgrade-add", "replace", "rollback-recreate"} {
+			out = append(out, c07BuildSpec(c07Spec{Backend: "secret", Scenario: sc, Idx: []int{0, 2}, Place: []string{p, "absent"}, NS: []string{"other", ""}, Twins: true, Variant: 1 + i}))
+		}
+		out = append(out, c07BuildSpec(c07Spec{Backend: "memory", Scenario: "install", Idx: []int{0, 1}, Place: []string{"absent", p}, NS: []string{"other", "other"}, Twins: true, Variant: 2 + i, Take: true,
+			Metas: []string{"stale", "wrong-label"}}))
+	}
+	// the SAME kind and name in both namespaces of one manifest: two resources, two ownership checks
+	for i, p := range c07Placements {
+		out = append(out, c07BuildSpec(c07Spec{Backend: "secret", Scenario: "install", Idx: []int{0, 0}, Place: []string{p, "absent"}, NS: []string{"other", ""}, Variant: 1 + i}))
+		out = append(out, c07BuildSpec(c07Spec{Backend: "secret", Scenario: "upgrade-add", Idx: []int{0, 0}, Place: []string{"absent", p}, NS: []string{"other", ""}, Variant: 1 + i}))
 	}
 	return out
 }
